@@ -472,11 +472,23 @@ fn run(case: &Case, out: &mut Out) {
                 st.readiness.event = if a[7].n() != 0 { Ready::WRITABLE } else { Ready::EMPTY };
                 out.obs(&st_toks(&st));
             }
+            "setline" => {
+                // the status line of the response buffer: 0 = none yet, else a response with that code
+                let code = a[0].n() as u16;
+                st.stream.back.detached.status_line = if code == 0 {
+                    kawa::StatusLine::Unknown
+                } else {
+                    kawa::StatusLine::Response { version: kawa::Version::V11, code, status: kawa::Store::Static(b"000"), reason: kawa::Store::Static(b"x") }
+                };
+                out.obs(&[tn(code as i128)]);
+            }
             "esd" => {
                 let (tag, status) = verif::end_stream_decision(&st.stream);
                 // the property's own table (documentation of EndStreamAction)
                 let s = &st.stream;
-                let want: (u8, u16) = if s.back.is_main_phase() {
+                // (an interim 100 / 103 sitting in the buffer is not a response: RFC 9110 15.2)
+                let interim = matches!(s.back.detached.status_line, kawa::StatusLine::Response { code, .. } if (100..200).contains(&code) && code != 101);
+                let want: (u8, u16) = if s.back.is_main_phase() && !interim {
                     if s.back.is_terminated() {
                         (0, 0)
                     } else if !s.context.keep_alive_backend {
@@ -492,8 +504,8 @@ fn run(case: &Case, out: &mut Out) {
                 if (tag, status) != want {
                     out.viol("esd-table", &format!("end_stream_decision gave ({tag},{status}), documented ({},{})", want.0, want.1));
                 }
-                if tag == 0 && !s.back.is_terminated() {
-                    out.viol("truncated-as-complete", "ForwardTerminated on a response that is not terminated");
+                if tag == 0 && (!s.back.is_terminated() || interim) {
+                    out.viol("truncated-as-complete", "ForwardTerminated on a response that is not terminated (or is only an interim one)");
                 }
                 out.obs(&[tn(tag), tn(status)]);
             }
